@@ -12,6 +12,7 @@ Sections
   measures    cc / cr / crl1 (rational formulas, model and Fraction reference), mi / nmi / slr (float reference).
   fov         sequences of set_fov / subsample on one object (explicit and automatic spacing): block, affine, npoints
               consistent; self-registration through eval(T) equals the definition; ideal_spacing / slices vs Coq model.
+  many-bins   histograms with 257..32767 bins on an axis and mass in the high bins (measures, L1, eval with > 256 bins).
   reuse       every measure (incl. pmi, dpmi, slr) evaluated repeatedly, several measure / registration objects built
               from the same caller arrays: results independent of history, caller arrays unmodified, slr = textbook.
   helpers     clamp, smallest_bounding_box, subgrid_affine / _slicer.
@@ -275,7 +276,10 @@ for k, c in enumerate(cases):
         big[::2, :, ::2] = I
         I = big[::2, :, ::2]
     _joint_histogram(H, I.flat, c["Jp"], c["coords"], c["interp"])
-    out.write("done %%d %%s\n" %% (k, json.dumps([x.hex() for x in H.ravel().tolist()]))); out.flush()
+    # the same call once more, immediately: the kernel must not carry state from one call to the next
+    H2 = np.full((c["cI"], c["cJ"]), -3.0)
+    _joint_histogram(H2, I.flat, c["Jp"], c["coords"], c["interp"])
+    out.write("done %%d %%s\n" %% (k, json.dumps([[x.hex() for x in H.ravel().tolist()], [x.hex() for x in H2.ravel().tolist()]]))); out.flush()
 """
 
 
@@ -297,7 +301,9 @@ def run_isolated(ck, cases, name):
             elif parts[0] == "done" and len(parts) == 3:
                 k = int(parts[1])
                 c = cases[k]
-                res[k] = np.array([float.fromhex(x) for x in json.loads(parts[2])]).reshape(c["cI"], c["cJ"])
+                h1, h2 = json.loads(parts[2])
+                res[k] = (np.array([float.fromhex(x) for x in h1]).reshape(c["cI"], c["cJ"]),
+                          np.array([float.fromhex(x) for x in h2]).reshape(c["cI"], c["cJ"]))
     crashed = None
     if r.returncode != 0:
         crashed = started if (0 <= started < len(cases) and res[started] is None) else max(started, 0)
@@ -349,9 +355,17 @@ def kernel(ck):
                 % (proc.returncode, (proc.stderr or "")[-200:].strip()), replay)
     terms, meta = [], []
     nrand = 0
-    for H, (n, mode, kind, replay, Hdef, info, Iflat, cflat, Jp, cI, cJ, draws) in zip(results, pending):
-        if H is None:
+    for HH, (n, mode, kind, replay, Hdef, info, Iflat, cflat, Jp, cI, cJ, draws) in zip(results, pending):
+        if HH is None:
             continue
+        H, Hrep = HH
+        if not np.array_equal(H, Hrep):
+            k = int(np.argmax(H.ravel() != Hrep.ravel()))
+            ck.fail("kernel/call-not-repeatable/%s" % mode,
+                    "two consecutive identical calls (same arrays, same interp/seed) give different histograms: bin (%d,%d) %r then %r; "
+                    "definition %s" % (k // cJ, k % cJ, H.ravel()[k], Hrep.ravel()[k], Hdef[k]),
+                    dict(replay, first_H=H.tolist(), second_H=Hrep.tolist(), sequence="the call twice in a row in one process"))
+            check_structure(ck, "kernel-second-call", mode, Hrep, Hdef, info, Iflat, cI, cJ, replay)
         nontriv = info["contrib"] > 0
         ck.count(("kernel", n, mode, kind), nontrivial=nontriv,
                  bucket="kernel:%s:%s" % (mode, "contrib" if nontriv else "nothing-inside"))
@@ -479,6 +493,22 @@ def clamp_def(x, bins, mask=None):
     return out
 
 
+def kernel_precondition(ck, R, tag, replay, expect=None):
+    """joint_histogram() trusts H.shape: every clamped source value must be a valid row and every clamped target
+    value a valid column of `_joint_hist` (checked BEFORE the kernel runs: a violation is an out-of-bounds write)."""
+    H = R._joint_hist
+    fmax = int(np.max(np.asarray(R._from_img.get_fdata())))
+    tmax = int(np.max(np.asarray(R._to_data)))
+    shape = tuple(int(v) for v in H.shape)
+    if len(shape) != 2 or shape[0] <= fmax or shape[1] <= tmax or (expect is not None and shape != tuple(expect)):
+        ck.fail("%s/hist-shape" % tag,
+                "joint histogram allocated with shape %s%s but the clamped source has values up to %d and the clamped target up to %d"
+                % (shape, "" if expect is None else " (expected %s = (from_bins, to_bins))" % (tuple(expect),), fmax, tmax),
+                dict(replay, hist_shape=list(shape), max_clamped_from=fmax, max_clamped_to=tmax))
+        return False
+    return True
+
+
 def evalpath(ck):
     import nipy.algorithms.registration.histogram_registration as hr
     from nipy.algorithms.registration.affine import Affine
@@ -519,6 +549,8 @@ def evalpath(ck):
                                          similarity="cr", interp=mode)
         except Exception as e:  # noqa
             ck.fail("eval/constructor-raises", "HistogramRegistration(...) raised %s: %s" % (type(e).__name__, e), replay)
+            continue
+        if not kernel_precondition(ck, R, "eval", replay, expect=(fb, tb)):
             continue
         # clamp / padding oracle
         cf = clamp_def(fdat, fb, fmask)
@@ -598,6 +630,8 @@ def evalpath(ck):
         fdat.flat[0], fdat.flat[-1] = 0.0, float(fb - 1)
         fim = Image(fdat, vox2mni(np.eye(4)))
         R = hr.HistogramRegistration(fim, fim, from_bins=fb, similarity="cc", interp=["pv", "tri"][n % 2])
+        if not kernel_precondition(ck, R, "evalT", {"from=to": fdat.tolist(), "bins": fb}, expect=(fb, fb)):
+            continue
         T = Affine()
         tr = [0.0, 0.0, 0.0] if n % 3 == 0 else [float(F(int(rng.integers(-6, 7)), 4)) for _ in range(3)]
         T.translation = tr
@@ -686,6 +720,137 @@ def cc_def(H, cI, cJ):
     if vi * vj <= 0:
         return None
     return c * c / (vi * vj)
+
+
+def textbook_float(name, H):
+    """Centred textbook formulas in float64 (for histograms too large for Fractions).  I = column, J = row."""
+    H = np.asarray(H, dtype=float)
+    n = H.sum()
+    jj, ii = np.meshgrid(np.arange(H.shape[0], dtype=float), np.arange(H.shape[1], dtype=float), indexing="ij")
+    if name == "cc":
+        mi_, mj_ = (H * ii).sum() / n, (H * jj).sum() / n
+        vi, vj = (H * (ii - mi_) ** 2).sum() / n, (H * (jj - mj_) ** 2).sum() / n
+        c = (H * (ii - mi_) * (jj - mj_)).sum() / n
+        return None if vi * vj <= 1e-300 else c * c / (vi * vj)
+    if name == "cr":
+        hI = H.sum(0)
+        mI = (hI * ii[0]).sum() / n
+        sst = (hI * (ii[0] - mI) ** 2).sum()
+        ssw = 0.0
+        for r in H:
+            if r.sum() > 0:
+                m = (r * ii[0]).sum() / r.sum()
+                ssw += (r * (ii[0] - m) ** 2).sum()
+        return None if sst <= 1e-300 else 1 - ssw / sst
+    if name == "crl1":
+        def ad(h):
+            tot = h.sum()
+            if tot <= 0:
+                return 0.0
+            m = int(np.argmax(np.cumsum(h) >= tot / 2))
+            return float((h * np.abs(np.arange(len(h)) - m)).sum())
+        tot = ad(H.sum(0))
+        return None if tot <= 1e-300 else 1 - sum(ad(r) for r in H) / tot
+    if name == "mi":
+        P = H / n
+        pI, pJ = P.sum(0), P.sum(1)
+        nzm = P > 0
+        return float((P[nzm] * np.log(P[nzm] / (pJ[:, None] * pI[None, :])[nzm])).sum())
+    raise ValueError(name)
+
+
+def many_bins(ck):
+    """Value magnitudes: histograms with far more than 256 bins on an axis (up to 32767 are legal) and mass in the
+    high bins - index grids, squares and products must not wrap."""
+    from nipy.algorithms.registration import similarity_measures as sm
+    from nipy.algorithms.registration._registration import _L1_moments
+    import nipy.algorithms.registration.histogram_registration as hr
+    from nipy.core.api import Image, vox2mni
+    hr.VERBOSE = False
+    rng = ck.rng("many-bins")
+    terms, meta = [], []
+    for n in range(ck.n(40, 300)):
+        big = int(rng.choice([257, 300, 513, 1000, 4097, 32767][: (4 if n % 3 else 6)]))
+        small = int(rng.integers(1, 5))
+        shape = (big, small) if n % 2 else (small, big)
+        H = np.zeros(shape)
+        k = int(rng.integers(3, 12))
+        for _ in range(k):       # sparse mass, mostly in the high bins
+            i = int(rng.integers(shape[0] // 2 if shape[0] > 256 else 0, shape[0]))
+            j = int(rng.integers(shape[1] // 2 if shape[1] > 256 else 0, shape[1]))
+            H[i, j] += float(rng.integers(1, 6))
+        H[int(rng.integers(shape[0])), int(rng.integers(shape[1]))] += 1.0
+        nzidx = np.argwhere(H > 0)
+        replay = {"shape": list(shape), "nonzero_bins": [[int(a), int(b), float(H[a, b])] for a, b in nzidx]}
+        ck.count(("many-bins", n), nontrivial=True, bucket="measures:many-bins:%d" % big)
+        for name in ("cc", "cr", "crl1", "mi"):
+            try:
+                v = float(sm.similarity_measures[name](shape, False, None)(H.copy()))
+            except Exception as e:  # noqa
+                ck.fail("measures/many-bins-raises/%s" % name, "%s on a %s histogram raised %s: %s" % (name, shape, type(e).__name__, e), replay)
+                continue
+            want = textbook_float(name, H)
+            if want is not None and abs(v - want) > 1e-7 * max(1.0, abs(want)):
+                ck.fail("measures/%s/many-bins" % name,
+                        "%s on a %dx%d histogram with mass in bins above 255: %r, textbook value %r" % (name, shape[0], shape[1], v, want),
+                        dict(replay, measure=name, value=v, textbook=want))
+        # L1 moments of the long marginal + Coq model on the sparse histogram (exact)
+        h = H.sum(1) if shape[0] == big else H.sum(0)
+        got = _L1_moments(np.ascontiguousarray(h))
+        hq = [frac(x) for x in h]
+        want = l1_def(hq)
+        if frac(got[0]) != want[0] or frac(got[1]) != want[1] or abs(frac(got[2]) - want[2]) > F(1, 10 ** 9):
+            ck.fail("l1/many-bins", "L1_moments on a %d-bin histogram: %r, definition %s" % (len(h), got, [float(x) for x in want]),
+                    {"nonzero": [[int(i), float(x)] for i, x in enumerate(h) if x]})
+        if big <= 1000 and n % 4 == 0:
+            Hq = [frac(x) for x in H.ravel()]
+            vcc = float(sm.similarity_measures["cc"](shape, False, None)(H.copy()))
+            vcr = float(sm.similarity_measures["cr"](shape, False, None)(H.copy()))
+            if cc_def(Hq, shape[0], shape[1]) is not None:
+                terms.append("qclose (1 # 10000000) (cc_rho2 %s %s %s) %s" % (cnat(shape[0]), cnat(shape[1]), cql(Hq), cq(frac(vcc))))
+                meta.append(("cc", replay))
+            if cr_def(Hq, shape[0], shape[1]) is not None:
+                terms.append("qclose (1 # 10000000) (cr_eta2 %s %s %s %s) %s" % (cq(TINY), cnat(shape[0]), cnat(shape[1]), cql(Hq), cq(frac(vcr))))
+                meta.append(("cr", replay))
+    # registration level: more than 256 bins requested, unequal from_bins / to_bins in both orders
+    for n in range(ck.n(8, 40)):
+        fb, tb = [(300, 7), (5, 400), (513, 300), (260, 260)][n % 4]
+        sshape = (4, 4, 3)
+        fdat = rng.integers(0, fb, size=sshape).astype(float)
+        tdat = rng.integers(0, tb, size=sshape).astype(float)
+        fdat[fdat < fb * 0.6] += int(fb * 0.4) - 1 if fb > 10 else 0
+        fdat.flat[0], fdat.flat[-1], tdat.flat[0], tdat.flat[-1] = 0, fb - 1, 0, tb - 1
+        sim = ["cc", "cr", "crl1", "mi"][n % 4] if n >= 4 else ["cc", "cr"][n % 2]
+        replay = {"from": fdat.tolist(), "to": tdat.tolist(), "from_bins": fb, "to_bins": tb, "similarity": sim}
+        ck.count(("many-bins-reg", n), nontrivial=True, bucket="eval:many-bins")
+        try:
+            R = hr.HistogramRegistration(Image(fdat, vox2mni(np.eye(4))), Image(tdat, vox2mni(np.eye(4))),
+                                         from_bins=fb, to_bins=tb, similarity=sim, interp="pv")
+        except Exception as e:  # noqa
+            ck.fail("eval/constructor-raises", "HistogramRegistration raised %s: %s" % (type(e).__name__, e), replay)
+            continue
+        if not kernel_precondition(ck, R, "eval", replay, expect=(fb, tb)):
+            continue
+        A, t = lattice_affine(rng, "shift", sshape, sshape)
+        val = float(R._eval(LatticeTransform(A, t)))
+        H = np.array(R._joint_hist)
+        Iflat = [int(v) for v in np.asarray(R._from_data).flat]
+        Hdef, info = ref_hist(Iflat, np.asarray(R._to_data).astype(np.int16), coords_of(sshape, A, t).reshape(-1, 3), "pv", fb, tb)
+        Hd = np.array([float(v) for v in Hdef]).reshape(fb, tb)
+        if not np.array_equal(H, Hd):
+            ck.fail("eval/differs-from-definition/many-bins", "joint histogram with %dx%d bins differs from the definition" % (fb, tb), replay)
+        want = textbook_float(sim, H)
+        if want is not None and abs(val - want) > 1e-7 * max(1.0, abs(want)):
+            ck.fail("measures/%s/many-bins" % sim, "eval with from_bins=%d, to_bins=%d returned %r, textbook %s of its own histogram is %r" % (fb, tb, val, sim, want),
+                    dict(replay, value=val, textbook=want))
+    if ck.build is not None and ck.build.ok:
+        res = ck.coq_bools(HDR, terms, shard=4, name="manybins")
+        ck.cov["traces_validated_against_impl"] += len(res)
+        for ok, (what, replay) in zip(res, meta):
+            if not ok:
+                ck.fail("%s/model-vs-impl" % what, "Coq model of %s and implementation disagree on a many-bin histogram %s" % (what, replay), replay)
+                break
+    ck.section("many-bins", sizes=[257, 300, 513, 1000, 4097, 32767])
 
 
 def random_hist(rng, n, kind):
@@ -965,6 +1130,8 @@ def fov(ck):
         except Exception as e:  # noqa
             ck.fail("fov/constructor-raises", "HistogramRegistration raised %s: %s" % (type(e).__name__, e), {"data": dat.tolist()})
             continue
+        if not kernel_precondition(ck, R, "fov", {"data": dat.tolist(), "from_bins": bins}):
+            continue
         clamped = np.asarray(R._from_img.get_fdata()).astype(int)
         img_aff = np.asarray(xyz_affine(R._from_img))
         nvox = int(np.prod(shape))
@@ -1197,6 +1364,8 @@ def reuse(ck):
             try:
                 R = hr.HistogramRegistration(I, J, from_bins=fb, to_bins=tb, from_mask=fmask, similarity=sim, interp="pv",
                                              dist=q if sim == "slr" else None)
+                if not kernel_precondition(ck, R, "reuse", replay, expect=(fb, tb)):
+                    break
                 R.subsample(spacing=spacing)
                 s1 = float(R.eval(T))
                 s2 = float(R.eval(T))
@@ -1324,6 +1493,8 @@ def optimize(ck):
             try:
                 with contextlib.redirect_stdout(io.StringIO()):
                     R = hr.HistogramRegistration(fim, tim, from_bins=8, similarity=sim, interp=interp)
+                    if not kernel_precondition(ck, R, "optimize", replay):
+                        continue
                     s0 = float(R.eval(T0))
                     T = R.optimize(T0.copy(), optimizer=opt, **kw)
                     s1 = float(R.eval(T))
@@ -1398,6 +1569,8 @@ def run(ck):
         evalpath(ck)
         fov(ck)
     moments_and_measures(ck)
+    if not getattr(ck, "kernel_unsafe", False):
+        many_bins(ck)
     reuse(ck)
     helpers(ck)
     if not getattr(ck, "kernel_unsafe", False):
